@@ -70,7 +70,7 @@ def _leaves_under(model, li, node):
     return out
 
 
-def near_tie_cell(sc, out, qrow, genes, normalization):
+def near_tie_cell(sc, out, qrow, genes, normalization, flatten=False, drop_level=None):
     """Float analysis of one cell (bootstrap factor 1: every iteration uses all markers of the node):
     True if at some node with >= 2 children the best correlation is matched within 1e-9 by a leaf of
     ANOTHER child (exact ties of two-marker nodes, identical reference profiles, ...).  Such a vote is
@@ -81,7 +81,7 @@ def near_tie_cell(sc, out, qrow, genes, normalization):
         s = qrow.sum()
         qrow = np.log2(1.0 + qrow * 1.0e6 / (s if s > 0 else 1.0))
     qv = {pipeline.gname(g): qrow[j] for j, g in enumerate(genes)}
-    model, levels = sc.tree.model, sc.tree.levels
+    levels, model = mapcheck.reduced_model(sc, flatten, drop_level)      # the taxonomy the election ran on
     mg = out.get('marker_genes', {})
     parents = [('None', None, [n for n, _ in model[0]])]
     for li, lv in enumerate(model[:-1]):
